@@ -25,6 +25,14 @@ static inline iora_bv iora_bv_range(const uint8_t *first, const uint8_t *last)
 { IORA_ASSERT(__CPROVER_same_object(first, last) && __CPROVER_POINTER_OFFSET(first) <= __CPROVER_POINTER_OFFSET(last), "vector(first,last): valid iterator range");
   iora_bv b; b.p = first; b.n = (size_t)(last - first); return b; }
 
+/* `ptr + k > end` (the replay loop's bounds tests) evaluated in FLAT address arithmetic: ptr + k may lie beyond one-past-the-end of the
+ * record buffer, which ISO C++ leaves undefined ([expr.add]) although every supported target computes it as an integer; CBMC rejects
+ * even the comparison.  Declared rule: p + k > end  ==>  k > end - p, with p and end in the same object and p <= end (asserted).
+ * Trusted: no wrap of the address space (the buffer does not end within 100 MiB + 64 KiB of the top of memory). */
+static inline bool iora_ptr_add_gt(const char *p, size_t k, const char *end)
+{ IORA_ASSERT(__CPROVER_same_object(p, end) && __CPROVER_POINTER_OFFSET(p) <= __CPROVER_POINTER_OFFSET(end), "bounds test: cursor inside the record buffer");
+  return k > (size_t)(end - p); }
+
 /* std::vector<uint8_t> v(n): allocation of symbolic size (contents arbitrary; the real vector zero-fills) */
 #ifdef KV_ALLOC_INLINE
 static inline void iora_vec_ctor(iora_vec *v, size_t n)
